@@ -217,31 +217,45 @@ def run_side(exe, casefile, n, per_case_timeout, label):
         tmp = casefile + "." + label + ".part"
         with open(tmp, "w") as f:
             f.write("\n".join(header + pending) + "\n")
-        budget = max(60, per_case_timeout + 0.02 * len(pending))
+        # The timeout is per case, not per shard: the process is killed only when its output file has
+        # not grown for `per_case_timeout` seconds (both sides flush after every case), so a loaded
+        # machine slows a run down without turning slow shards into `hang` verdicts.
+        outp = tmp + ".out"
         try:
-            p = subprocess.run([exe, tmp], stdout=subprocess.PIPE, stderr=subprocess.PIPE, text=True,
-                               timeout=budget, env=ENV)
-            got = parse_out(p.stdout)
+            with open(outp, "w") as fo, open(outp + ".err", "w") as fe:
+                p = subprocess.Popen([exe, tmp], stdout=fo, stderr=fe, env=ENV)
+                last_size, last_t, hung = 0, time.time(), False
+                while True:
+                    try:
+                        p.wait(timeout=0.2)
+                        break
+                    except subprocess.TimeoutExpired:
+                        sz = os.path.getsize(outp)
+                        now = time.time()
+                        if sz != last_size:
+                            last_size, last_t = sz, now
+                        elif now - last_t > per_case_timeout:
+                            hung = True
+                            p.kill()
+                            p.wait()
+                            break
+            err = open(outp + ".err", errors="replace").read()[-2000:]
+            os.remove(outp + ".err")
+            got = parse_out(open(outp, errors="replace").read())
             results.update(got)
             ids = [int(l.split(" ", 1)[0]) for l in pending]
             missing = [i for i in ids if i not in got]
             if not missing:
                 pending = []
             else:
-                # process died (abort / OOM / stack overflow): first missing case is the culprit
-                first = missing[0]
-                results[first] = "crash rc=%s %s" % (p.returncode, (p.stderr or "").strip().splitlines()[-1:] or "")
+                if hung:
+                    results[missing[0]] = "hang"
+                else:
+                    # process died (abort / OOM / stack overflow): first missing case is the culprit
+                    results[missing[0]] = "crash rc=%s %s" % (p.returncode, err.strip().splitlines()[-1:] or "")
                 pending = [l for l in pending if int(l.split(" ", 1)[0]) in set(missing[1:])]
-        except subprocess.TimeoutExpired as e:
-            got = parse_out(e.stdout.decode() if isinstance(e.stdout, bytes) else (e.stdout or ""))
-            results.update(got)
-            ids = [int(l.split(" ", 1)[0]) for l in pending]
-            missing = [i for i in ids if i not in got]
-            if not missing:
-                pending = []
-            else:
-                results[missing[0]] = "hang"
-                pending = [l for l in pending if int(l.split(" ", 1)[0]) in set(missing[1:])]
+            if os.path.exists(outp):
+                os.remove(outp)
         finally:
             if os.path.exists(tmp):
                 os.remove(tmp)
